@@ -268,6 +268,8 @@ class AbstractOfflineSpecification(AbstractSpecification):
         self.explainer = explainer
 
     def explain(self):
+        # the explainer reads temporal bounds in sampling periods, as the interpreter does
+        self.explainer.time_unit_transformer = self.offline_interpreter.time_unit_transformer
         self.explainer.explain(self.ast)
 
     # forwarding to interpreter
